@@ -4,6 +4,8 @@ import (
 	"io"
 	"os"
 	"sync"
+	"syscall"
+	"time"
 
 	"github.com/ozontech/file.d/pipeline"
 
@@ -261,4 +263,66 @@ func VerifH_C03_truncatedWhileDown() {
 
 func sliceOfLoaded(id pipeline.SourceID, stream string, off int64) fpOffsets {
 	return fpOffsets{id: &inodeOffsets{streams: map[pipeline.StreamName]int64{pipeline.StreamName(stream): off}, sourceID: id, filename: "f"}}
+}
+
+type verifFIino struct {
+	size int64
+	ino  uint64
+}
+
+func (f verifFIino) Name() string       { return "f" }
+func (f verifFIino) Size() int64        { return f.size }
+func (f verifFIino) Mode() os.FileMode  { return 0 }
+func (f verifFIino) ModTime() time.Time { return time.Time{} }
+func (f verifFIino) IsDir() bool        { return false }
+func (f verifFIino) Sys() any           { return &syscall.Stat_t{Ino: f.ino} }
+
+func verifStubMimeType(string) string { return "" }
+
+// C03.H5: the real addJob. A file found in the start phase is resumed from the offsets loaded at start-up;
+// a file that appears while file.d is running (a new file, possibly re-using the inode number of a deleted
+// one) is read from the beginning and none of its lines counts as already committed.
+func VerifH_C03_addJob() {
+	jp := verifNewProvider()
+	jp.config.MaxFiles = 10
+	jp.config.OffsetsOp_ = offsetsOpContinue
+	stat := verifFIino{size: 9, ino: 77}
+	sid := sourceIDByStat(stat, "")
+	saved := int64(1 + vf.Choose("saved-offset", 8))
+	if vf.Choose("known-file", 2) == 1 {
+		jp.loadedOffsets = fpOffsets{sid: {filename: "f", sourceID: sid, streams: map[pipeline.StreamName]int64{"s": saved}}}
+	}
+	started := vf.Choose("appears-after-start", 2) == 1
+	jp.isStarted.Store(started)
+	verifSeekPos = -1
+	verifStart, verifAvail = 0, 9
+	jp.addJob(new(os.File), stat, "f", "")
+	job := jp.jobs[sid]
+	if job == nil {
+		vf.Fail("job-added")
+		return
+	}
+	plugin := &Plugin{jobProvider: jp}
+	resumed := !started && jp.loadedOffsets != nil
+	if vf.Param("twin", 0) == 1 {
+		vf.Assert(verifSeekPos != 0, "twin")
+		return
+	}
+	if resumed {
+		vf.Assert(verifSeekPos == saved, "known-file-resumes-at-its-saved-offset")
+		vf.Reach("resumed")
+	} else {
+		vf.Assert(verifSeekPos == 0, "new-file-is-read-from-the-beginning")
+	}
+	for off := int64(1); off <= 9; off++ {
+		pass := plugin.PassEvent(pipeline.VerifNewEvent(sid, off, 1, "s"))
+		if resumed {
+			vf.Assert(pass == (off > saved), "known-file-passes-exactly-the-lines-after-its-saved-offset")
+		} else {
+			vf.Assert(pass, "every-line-of-a-new-file-is-delivered")
+		}
+	}
+	if started && jp.loadedOffsets != nil {
+		vf.Reach("inode-reused-after-start")
+	}
 }
